@@ -61,6 +61,9 @@ def c02Write (s : SyncCase) (r : Rec) : Option String :=
             match selectorOfCase s with
             | some sel => check (sel.matches (labelsOf p)) s!"adopted {r.resource} {r.name}, an orphan that does not match the selector"
             | none => some s!"adopted {r.resource} {r.name} without a usable selector"
+          else if r.verb == "apply" then
+            -- recorded finding F-C02-1: server-side apply is sent for every desired name, also onto an object that was never claimed
+            some s!"[F-C02-1] accepted apply of {r.resource} {r.name}, which the parent does not control"
           else some s!"accepted {r.verb} of {r.resource} {r.name}, which the parent does not control"
   | _ => none
 
